@@ -8,28 +8,31 @@ level, empty containers on one line); every other indent panics.
 argument, so no call can modify a container (the driver serialises the receiver to its tree first,
 a read-only operation: C14).
 
-The only assumption is `FmtContract` (Go's shortest float formatting, stated about `serF`).
+No assumption about floating point is left: `FmtContract` (the serialiser's shortest formatting is read back as
+the identical float64) is the theorem `fmtContract_holds` (`Lemmas/FmtContractHolds.lean`: seventeen digits
+always suffice; the 'e' and 'f' layouts preserve the value).
 -/
 import Anytype.Lemmas.Indent
+import Anytype.Lemmas.FmtContractHolds
 namespace Anytype
 
 /-- Go's `json.Indent` applied to `String()` yields exactly the canonical layout defined on the tree -/
-theorem C16_indent_pretty (hf : FmtContract) (n : Nat) (v : JVal) (hw : v.WF) :
+theorem C16_indent_pretty (n : Nat) (v : JVal) (hw : v.WF) :
     indentGo n (ser v) false false false 0 = pretty n 0 v := by
-  have := indentGo_ser hf n v hw 0 []
+  have := indentGo_ser fmtContract_holds n v hw 0 []
   simpa [indentGo] using this
 
 /-- the canonical layout is a valid RFC 8259 text and the strict decoder recovers the same tree
 (for every indent width, not only 0..10) -/
-theorem C16_lossless (hf : FmtContract) (n : Nat) (v : JVal) (hw : v.WF) :
+theorem C16_lossless (n : Nat) (v : JVal) (hw : v.WF) :
     Strict.decode (pretty n 0 v) = .ok v [] :=
-  Strict.decode_pretty hf n v hw
+  Strict.decode_pretty fmtContract_holds n v hw
 
 /-- it denotes exactly the same data as `String()` -/
-theorem C16_same_data (hf : FmtContract) (n : Nat) (v : JVal) (hw : v.WF) :
+theorem C16_same_data (n : Nat) (v : JVal) (hw : v.WF) :
     Strict.decode (pretty n 0 v) = Strict.decode (ser v) := by
-  rw [C16_lossless hf n v hw, Strict.decode, (Strict.ser_goodHead hf v hw).skipWs]
-  have := Strict.value_ser hf v hw ((ser v).length + 1) [] (by omega) (Or.inl rfl)
+  rw [C16_lossless n v hw, Strict.decode, (Strict.ser_goodHead fmtContract_holds v hw).skipWs]
+  have := Strict.value_ser fmtContract_holds v hw ((ser v).length + 1) [] (by omega) (Or.inl rfl)
   rw [List.append_nil] at this
   rw [this]; rfl
 
@@ -42,26 +45,26 @@ theorem C16_nonempty (n : Nat) (v : JVal) (hc : v.isContainer = true) : pretty n
 
 /-- re-indenting canonically reproduces the text byte for byte: whatever tree the text decodes to,
 laying that tree out again gives the same text -/
-theorem C16_canonical (hf : FmtContract) (n : Nat) (v v' : JVal) (hw : v.WF) (r : Str)
+theorem C16_canonical (n : Nat) (v v' : JVal) (hw : v.WF) (r : Str)
     (hd : Strict.decode (pretty n 0 v) = .ok v' r) : pretty n 0 v' = pretty n 0 v := by
-  rw [C16_lossless hf n v hw] at hd
+  rw [C16_lossless n v hw] at hd
   cases hd; rfl
 
 /-- for an indent in 0..10 `FormatString` returns the canonical layout -/
-theorem C16_formatString (hf : FmtContract) (n : Int) (h0 : 0 ≤ n) (h10 : n ≤ 10) (v : JVal) (hw : v.WF) :
+theorem C16_formatString (n : Int) (h0 : 0 ≤ n) (h10 : n ≤ 10) (v : JVal) (hw : v.WF) :
     formatString n v = some (pretty n.toNat 0 v) := by
   have : (n < 0 || n > 10) = false := by simp; omega
   simp only [formatString, this, hasNonFinite_of_WF v hw, Bool.false_eq_true, if_false,
-    C16_indent_pretty hf n.toNat v hw]
+    C16_indent_pretty n.toNat v hw]
 
 /-- the full statement about the returned text -/
-theorem C16_valid_canonical (hf : FmtContract) (n : Int) (h0 : 0 ≤ n) (h10 : n ≤ 10) (v : JVal) (hw : v.WF)
+theorem C16_valid_canonical (n : Int) (h0 : 0 ≤ n) (h10 : n ≤ 10) (v : JVal) (hw : v.WF)
     (hc : v.isContainer = true) :
     ∃ t, formatString n v = some t ∧ t ≠ [] ∧ t = pretty n.toNat 0 v ∧
       Strict.decode t = .ok v [] ∧ Strict.decode t = Strict.decode (ser v) ∧
       Strict.isStrictJSON t = true :=
-  ⟨_, C16_formatString hf n h0 h10 v hw, C16_nonempty _ v hc, rfl, C16_lossless hf _ v hw,
-    C16_same_data hf _ v hw, by unfold Strict.isStrictJSON; rw [C16_lossless hf _ v hw]⟩
+  ⟨_, C16_formatString n h0 h10 v hw, C16_nonempty _ v hc, rfl, C16_lossless _ v hw,
+    C16_same_data _ v hw, by unfold Strict.isStrictJSON; rw [C16_lossless _ v hw]⟩
 
 /-- exactly the indents outside 0..10 panic (`none`), whatever the container holds -/
 theorem C16_range (n : Int) (v : JVal) : formatString n v = none ↔ n < 0 ∨ n > 10 := by
